@@ -1,8 +1,188 @@
+/-
+  C20 line-protocol ops.
+
+    c20.murmur       seed hex            -> decimal | err:…                  (Model.Bloom.murmurHash3)
+    c20.spec.murmur  seed hex            -> decimal                          (Spec.Bloom.murmur3)
+    c20.ctor         xn xd yn yd         -> "size k"                         (Model sizing, x = xn/xd, y = yn/yd)
+    c20.hist         init ops            -> one token per op, ','-joined     (Model)
+    c20.spec.hist    init ops            -> same, computed on the set-of-bit-indices Spec
+
+    init := n:<nElements>:<rate>:<len>:<k>:<tweak>:<flags>   fresh filter of <len> zero bytes
+          | w:<hex>                                          CBloomFilter.deserialize(hex)
+    op   := i:<hex> | o:<hash>:<n>      insert bytes / outpoint          -> "."
+          | c:<hex> | q:<hash>:<n>      contains bytes / outpoint        -> "0" | "1"
+          | d                           dump vData                       -> hex
+          | s                           serialize()                      -> hex
+          | r                           deserialize(serialize())         -> "."
+          | z                           IsWithinSizeConstraints()        -> "0" | "1"
+          | p                           nHashFuncs/nTweak/nFlags         -> "k/t/f"
+    the first failing op contributes err:<family> and ends the history.
+-/
 import Driver.Util
+import BtcVerif.Model.Bloom
+import BtcVerif.Spec.Bloom
+import BtcVerif.Spec.Wire
 
 namespace Driver.C20
 open BtcVerif Driver
+open BtcVerif.Model.Bloom (Filter Elem)
 
-def handle (_op : String) (_args : List String) : Option String := none
+inductive HOp
+  | ins (x : Elem) | has (x : Elem) | dump | ser | reload | within | params
+
+def parseOutPoint? (h n : String) : Option OutPoint := do
+  let h ← parseHex? h
+  let n ← parseNat? n
+  pure { hash := h, n := n }
+
+def parseOp? (s : String) : Option HOp :=
+  match s.splitOn ":" with
+  | ["i", h] => (parseHex? h).map (fun b => .ins (.bytes b))
+  | ["c", h] => (parseHex? h).map (fun b => .has (.bytes b))
+  | ["o", h, n] => (parseOutPoint? h n).map (fun o => .ins (.outpoint o))
+  | ["q", h, n] => (parseOutPoint? h n).map (fun o => .has (.outpoint o))
+  | ["d"] => some .dump
+  | ["s"] => some .ser
+  | ["r"] => some .reload
+  | ["z"] => some .within
+  | ["p"] => some .params
+  | _ => none
+
+def errTok (e : Exc) : String := "err:" ++ e.family
+
+/-! ### Model -/
+
+def modelInit? (s : String) : Option (Except String Filter) :=
+  match s.splitOn ":" with
+  | ["n", _, _, len, k, t, fl] => do
+      let len ← parseNat? len; let k ← parseNat? k; let t ← parseNat? t; let fl ← parseNat? fl
+      pure (.ok { vData := List.replicate len 0, nHashFuncs := k, nTweak := t, nFlags := fl })
+  | ["w", h] => do
+      let b ← parseHex? h
+      pure (match Model.Bloom.deserialize b with
+            | .ok f => .ok f
+            | .extra _ _ => .error "err:extra"
+            | .err e => .error (errTok e))
+  | _ => none
+
+def b01 (b : Bool) : String := if b then "1" else "0"
+
+def modelRun (f : Filter) (ops : List HOp) (acc : Array String) : Array String :=
+  match ops with
+  | [] => acc
+  | op :: rest =>
+    match op with
+    | .ins x => match Model.Bloom.insertElem f x with
+        | .ok g => modelRun g rest (acc.push ".")
+        | .error e => acc.push (errTok e)
+    | .has x => match Model.Bloom.containsElem f x with
+        | .ok b => modelRun f rest (acc.push (b01 b))
+        | .error e => acc.push (errTok e)
+    | .dump => modelRun f rest (acc.push (toHex f.vData))
+    | .ser => match Model.Bloom.ser f with
+        | .ok b => modelRun f rest (acc.push (toHex b))
+        | .error e => acc.push (errTok e)
+    | .reload => match Model.Bloom.reload f with
+        | .ok g => modelRun g rest (acc.push ".")
+        | .error e => acc.push (errTok e)
+    | .within => modelRun f rest (acc.push (b01 (Model.Bloom.isWithinSizeConstraints f)))
+    | .params => modelRun f rest (acc.push s!"{f.nHashFuncs}/{f.nTweak}/{f.nFlags}")
+
+/-! ### Spec: the filter is the set of its bit indices (one Bool per bit) -/
+
+structure SFilter where
+  nbytes : Nat
+  k : Nat
+  tweak : Nat
+  flags : Nat
+  bits : Array Bool
+
+def sOfData (d : Bytes) (k t fl : Nat) : SFilter :=
+  { nbytes := d.length, k := k, tweak := t, flags := fl,
+    bits := Array.ofFn (n := d.length * 8) (fun j => decide (Spec.Bloom.bitSet d j.val)) }
+
+def sData (f : SFilter) : Bytes :=
+  (List.range f.nbytes).map (fun i =>
+    UInt8.ofNat ((List.range 8).foldl (fun acc b => if f.bits.getD (8 * i + b) false then acc + 2 ^ b else acc) 0))
+
+/-- CompactSize-prefixed data, u32 nHashFuncs, u32 nTweak, u8 nFlags; exactly consumed -/
+def sParseWire? (b : Bytes) : Option SFilter := do
+  let (len, r) ← match b with
+    | [] => none
+    | x :: r =>
+      if x.toNat < 0xfd then some (x.toNat, r)
+      else if x.toNat = 0xfd then (if r.length < 2 then none else some (leNat (r.take 2), r.drop 2))
+      else if x.toNat = 0xfe then (if r.length < 4 then none else some (leNat (r.take 4), r.drop 4))
+      else (if r.length < 8 then none else some (leNat (r.take 8), r.drop 8))
+  if r.length ≠ len + 9 then none
+  let d := r.take len
+  let t := r.drop len
+  pure (sOfData d (leNat (t.take 4)) (leNat ((t.drop 4).take 4)) (leNat (t.drop 8)))
+
+def specInit? (s : String) : Option SFilter :=
+  match s.splitOn ":" with
+  | ["n", _, _, len, k, t, fl] => do
+      let len ← parseNat? len; let k ← parseNat? k; let t ← parseNat? t; let fl ← parseNat? fl
+      pure { nbytes := len, k := k, tweak := t, flags := fl, bits := Array.replicate (len * 8) false }
+  | ["w", h] => do
+      let b ← parseHex? h
+      sParseWire? b
+  | _ => none
+
+def sElemBytes : Elem → Bytes
+  | .bytes b => b
+  | .outpoint o => Spec.Wire.outPoint o
+
+def sBits (f : SFilter) (e : Bytes) : List Nat :=
+  Spec.Bloom.bitsOf (f.nbytes * 8) f.k (UInt32.ofNat f.tweak) e
+
+def specRun (f : SFilter) (ops : List HOp) (acc : Array String) : Array String :=
+  match ops with
+  | [] => acc
+  | op :: rest =>
+    match op with
+    | .ins x =>
+        let g := if f.nbytes = 0 then f
+                 else { f with bits := (sBits f (sElemBytes x)).foldl (fun a j => a.setIfInBounds j true) f.bits }
+        specRun g rest (acc.push ".")
+    | .has x =>
+        let b := f.nbytes = 0 || (sBits f (sElemBytes x)).all (fun j => f.bits.getD j false)
+        specRun f rest (acc.push (b01 b))
+    | .dump => specRun f rest (acc.push (toHex (sData f)))
+    | .ser => specRun f rest (acc.push (toHex (Spec.Wire.varBytes (sData f) ++ leBytes 4 f.k ++ leBytes 4 f.tweak
+                ++ leBytes 1 f.flags)))
+    | .reload => specRun f rest (acc.push ".")
+    | .within => specRun f rest (acc.push (b01 (f.nbytes ≤ Spec.Bloom.MAX_BLOOM_FILTER_SIZE
+                                                  && f.k ≤ Spec.Bloom.MAX_HASH_FUNCS)))
+    | .params => specRun f rest (acc.push s!"{f.k}/{f.tweak}/{f.flags}")
+
+def joinToks (a : Array String) : String := joinWith "," a.toList
+
+def mkRat? (n d : String) : Option Rat := do
+  let n ← parseInt? n
+  let d ← parseNat? d
+  if d = 0 then none else pure ((n : Rat) / (d : Rat))
+
+def handle (op : String) (args : List String) : Option String :=
+  match op, args with
+  | "c20.murmur", [seed, d] => some <| match parseNat? seed, parseHex? d with
+      | some s, some d => Res.render ((Model.Bloom.murmurHash3 s d).map toString)
+      | _, _ => badArgs
+  | "c20.spec.murmur", [seed, d] => some <| match parseNat? seed, parseHex? d with
+      | some s, some d => if s < 2 ^ 32 then toString (Spec.Bloom.murmur3 (UInt32.ofNat s) d).toNat else badArgs
+      | _, _ => badArgs
+  | "c20.ctor", [xn, xd, yn, yd] => some <| match mkRat? xn xd, mkRat? yn yd with
+      | some x, some y => s!"{Model.Bloom.sizeBytes x} {Model.Bloom.hashFuncs y}"
+      | _, _ => badArgs
+  | "c20.hist", [init, ops] => some <|
+      match modelInit? init, (splitList ops ',').mapM parseOp? with
+      | some (.ok f), some ops => joinToks (modelRun f ops #[])
+      | some (.error e), some _ => e
+      | _, _ => badArgs
+  | "c20.spec.hist", [init, ops] => some <|
+      match specInit? init, (splitList ops ',').mapM parseOp? with
+      | some f, some ops => joinToks (specRun f ops #[])
+      | _, _ => badArgs
+  | _, _ => none
 
 end Driver.C20
